@@ -128,8 +128,28 @@ def slab_decomposition(kind):
     return chunks, (X0, Y0, Z0), (X2, Y2, Z2), pre, list(v), supported
 
 
-def build_store(chunks, ghosts, order, file_layout, variables, it_keys, rl):
+def regrid_decomposition():
+    """one file whose decomposition changes between two iterations (regridding / another process count): iteration A is cut in
+    x only (2 chunks), iteration B in x and y (4 chunks); same domain"""
+    chunks4, lo, hi, pre, names = tensor_decomposition(2, 2, 1)
+    X = [SInt.var(f'X{k}') for k in range(3)]
+    Y = [SInt.var(f'Y{k}') for k in range(3)]
+    Z = [SInt.var(f'Z{k}') for k in range(2)]
+    chunks2 = [((X[0], Y[0], Z[0]), (X[1], Y[2], Z[1])), ((X[1], Y[0], Z[0]), (X[2], Y[2], Z[1]))]
+    return chunks2, chunks4, lo, hi, pre, names
+
+
+def build_store(chunks, ghosts, order, file_layout, variables, it_keys, rl, chunks_by_it=None):
     """fake files: datasets for every (variable, iteration, level, chunk); returns (store, files)"""
+    if chunks_by_it is not None:
+        store, files = {}, []
+        for itv in it_keys:
+            st_, fl_ = build_store(chunks_by_it[itv], ghosts, list(range(len(chunks_by_it[itv]))), file_layout, variables, [itv], rl)
+            for fn, d in st_.items():
+                store.setdefault(fn, {}).update(d)
+                if fn not in files:
+                    files.append(fn)
+        return store, files
     store = {}
     gx, gy, gz = ghosts
     multi = len(chunks) > 1
@@ -153,7 +173,14 @@ def build_store(chunks, ghosts, order, file_layout, variables, it_keys, rl):
     return store, files
 
 
-def check_placement(out, variables, its, rl, chunks, lo, hi, ghosts):
+def check_placement(out, variables, its, rl, chunks, lo, hi, ghosts, chunks_by_it=None):
+    if chunks_by_it is not None:
+        probs = []
+        for k, itv in enumerate(its):
+            sub = {v: [out[v][k]] if (out.get(v) is not None and len(out[v]) == len(its)) else None for v in variables}
+            sub['t'] = [out['t'][k]] if len(out.get('t', [])) == len(its) else None
+            probs += check_placement(sub, variables, [itv], rl, chunks_by_it[itv], lo, hi, ghosts)
+        return probs
     c = ctx()
     probs = []
     gx, gy, gz = ghosts
@@ -208,6 +235,7 @@ def cases(tier):
                     if tier == 'quick' and n > 4 and (fl == 'one-file') == (len(variables) == 1):
                         continue
                     out.append(dict(kind='tensor', grid=g, order=order, file_layout=fl, variables=variables))
+    out.append(dict(kind='regrid', grid=None, order=[0, 1, 2, 3], file_layout='one-file', variables=['gxx']))
     for kind in ('y-split-below-z', 'x-split-below-z', 'x-split-below-y', 'y-split-beside-x', 'z-split-beside-y'):
         for order in ([[0, 1, 2], [2, 1, 0], [1, 2, 0]] if tier == 'quick' else [list(p) for p in itertools.permutations(range(3))]):
             out.append(dict(kind=kind, grid=None, order=order, file_layout='one-file', variables=['gxx']))
@@ -224,15 +252,20 @@ def run_case(args):
     t0 = time.time()
 
     def run(c):
+        by_it = None
+        it0, it1 = 0, 3          # iteration numbers live inside dataset-key strings parsed by a regex: concrete
         if case['kind'] == 'tensor':
             chunks, lo, hi, pre, names = tensor_decomposition(*case['grid'])
+            supported = True
+        elif case['kind'] == 'regrid':
+            chunks2, chunks, lo, hi, pre, names = regrid_decomposition()
+            by_it = {it0: chunks2, it1: chunks}
             supported = True
         else:
             chunks, lo, hi, pre, names, supported = slab_decomposition(case['kind'])
         g = [SInt.var('gx'), SInt.var('gy'), SInt.var('gz')]
-        it0, it1 = 0, 3          # iteration numbers live inside dataset-key strings parsed by a regex: concrete
         c.pre += pre + [tm.le(tm.ZERO, x.t) for x in g]
-        store, files = build_store(chunks, g, case['order'], case['file_layout'], case['variables'], [it0, it1], 0)
+        store, files = build_store(chunks, g, case['order'], case['file_layout'], case['variables'], [it0, it1], 0, chunks_by_it=by_it)
         # iteration numbers appear inside dataset keys: format through the canonical tokens
         saved = {k: getattr(reading, k, None) for k in ('h5py', 'os', 'np', 'int')}
         fs = FakeFS()
@@ -244,7 +277,7 @@ def run_case(args):
                 # iterations requested out of order: rows must come back in sorted order (that is how
                 # read_ET_variables labels them)
                 out = reading.read_ET_group_or_var(list(case['variables']), list(files), cmax, it=[it1, it0], rl=0)
-                probs = check_placement(out, case['variables'], [it0, it1], 0, chunks, lo, hi, g)
+                probs = check_placement(out, case['variables'], [it0, it1], 0, chunks, lo, hi, g, chunks_by_it=by_it)
                 returned = True
             except Inconclusive:
                 raise
@@ -290,8 +323,12 @@ def replay_case(tier, idx, model):
             env = {v.val: model.get(v.val, 0) for v in tm.free_vars([s.t])}
             return int(tm.evaluate([s.t], {k: __import__('fractions').Fraction(x) for k, x in env.items()})[0])
         return int(s)
+    chunks2 = None
     if case['kind'] == 'tensor':
         chunks, lo, hi, pre, names = tensor_decomposition(*case['grid'])
+        supported = True
+    elif case['kind'] == 'regrid':
+        chunks2, chunks, lo, hi, pre, names = regrid_decomposition()
         supported = True
     else:
         chunks, lo, hi, pre, names, supported = slab_decomposition(case['kind'])
@@ -307,15 +344,18 @@ def replay_case(tier, idx, model):
     try:
         multi = len(chunks) > 1
         base = 'admbase-metric' if len(case['variables']) > 1 else case['variables'][0]
-        for cnum, ci in enumerate(case['order']):
-            clo = [val(x) for x in chunks[ci][0]]
-            chi = [val(x) for x in chunks[ci][1]]
+        plan = [(cnum, chunks[ci], (it0, it1)) for cnum, ci in enumerate(case['order'])]
+        if chunks2 is not None:          # regridding: iteration it0 in 2 chunks, it1 in 4, same file
+            plan = [(cnum, ch, (it1,)) for cnum, ch in enumerate(chunks)] + [(cnum, ch, (it0,)) for cnum, ch in enumerate(chunks2)]
+        for cnum, chunk_, its_here in plan:
+            clo = [val(x) for x in chunk_[0]]
+            chi = [val(x) for x in chunk_[1]]
             fname = os.path.join(root, f'{base}.file_{cnum}.h5' if case['file_layout'] == 'per-process' else f'{base}.h5')
             if fname not in files:
                 files.append(fname)
             with h5py.File(fname, 'a') as f:
                 for vi, v in enumerate(case['variables']):
-                    for itv in (it0, it1):
+                    for itv in its_here:
                         key = f'ADMBASE::{v} it={itv} tl=0 rl=0' + (f' c={cnum}' if (multi or case['file_layout'] == 'per-process') else '')
                         sl = tuple(slice(clo[ax] - lo_v[ax], chi[ax] - lo_v[ax] + 2 * g[ax]) for ax in (2, 1, 0))
                         d = f.create_dataset(key, data=full[sl] + 1000 * vi + 7 * itv)
